@@ -57,6 +57,12 @@ MUTANTS = [
     ("m33", "C17", CP, "        .map_or(subject_pos, |c| subject_pos + c.len_utf8());", "        .map_or(subject_pos, |_c| subject_pos + 1);"),
     ("m34", "C12", CP, r'Regex::new(r"^\[ref: ([0-9]{1,10})\]")', r'Regex::new(r"^\[ref: ([0-9]{1,9})\]")'),
     ("m35", "C12", CP, 'result.push_str(&format!("[ref: {}] ", reference_id));', 'result.push_str(&format!("[ref:{}] ", reference_id));'),
+    ("m37", "C14", CP, "        if first_line\n        {\n            first_line = false;\n            continue;\n        }", "        if first_line\n        {\n            first_line = false;\n        }"),
+    ("m38", "C14", CP, "            None => break,\n            Some(capture) =>", "            None => continue,\n            Some(capture) =>"),
+    ("m39", "C14", CP, "                            if comment.as_str().to_lowercase().trim() == directive_name", "                            if comment.as_str().trim() == directive_name"),
+    ("m40", "C14", CP, "                }\n\n                break;\n            },", "                }\n            },"),
+    ("m41", "C12", CP, "                Err(_e) => return None,\n                Ok(e) => return Some(e),", "                Err(_e) => return Some(0),\n                Ok(e) => return Some(e),"),
+    ("m42", "C13", CP, 'static ref REF_KVP_KEY: String = String::from("ref");', 'static ref REF_KVP_KEY: String = String::from("Ref");'),
     ("m36", "C06", GEN, "                if references_id_result.1 == 0\n                {", "                if references_id_result.1 == 1\n                {"),
 ]
 
